@@ -162,8 +162,12 @@ func skipUnknown(b []byte, tp ttype) (n int, err error) {
 
 func decodeFixedSizeTypes(t ttype, b []byte, p unsafe.Pointer) int {
 	switch t {
-	case tBOOL, tBYTE:
-		*(*byte)(p) = b[0] // XXX: for tBOOL 1->true, 2->true/false
+	case tBOOL:
+		// only 1 is true, as for every Thrift reader; a Go bool must hold 0 or 1
+		*(*bool)(p) = b[0] == 1
+		return 1
+	case tBYTE:
+		*(*byte)(p) = b[0]
 		return 1
 	case tDOUBLE, tI64:
 		*(*uint64)(p) = binary.BigEndian.Uint64(b)
